@@ -97,7 +97,9 @@ def probe_values(m: Message, t: Base, full: bool) -> List[Tuple[str, Any]]:
         out.append((f"all={b}", allv))
     pos_sample = probed if full else [it for it in probed if it.path in ((2,), (3, 0), (4, 1), (6, 4), (7,), (8, 2), (9, 1), (10, 0, 1), (10, 1, 0), (12, 0), (12, 8))]
     for it in pos_sample:
-        for b in basis(t, full):
+        # (quick: the first seven basis values per position - 0, all-ones/-1, min, max and the lowest single bits; every basis value still
+        #  visits every position in the all=<value> probes above)
+        for b in (basis(t, full) if full else basis(t, False)[:7]):
             if b == 0:
                 continue
             out.append((f"{list(it.path)}={b}", ref.set_leaf(m, zero, it.path, b)))
